@@ -15,7 +15,8 @@
    examples [c20_*_regression] below and forced cases of the behavioural runs (TestC20 cases 0, 1;
    TestC20Liq cases 0-3). *)
 From Coq Require Import String.
-From Comdex Require Import Lib.Base Lib.GenesisTypes Gen.GenesisTable Model.Genesis Proofs.GenesisProofs.
+From Comdex Require Import Lib.Base Lib.GenesisTypes Gen.GenesisTable Model.Genesis Proofs.GenesisProofs
+  Model.GenesisValidate Proofs.GenesisValidateProofs.
 Open Scope Z_scope.
 
 (* every store access / genesis shape of the 14 DeFi modules was understood by the translator *)
@@ -80,6 +81,65 @@ Theorem c20_fresh_ids : forall m b orig items v,
   ~ In (next_id v) (ids items).
 Proof. exact (counter_safe_fresh the_table). Qed.
 Print Assumptions c20_fresh_ids.
+
+(* ---------------- the validation that InitGenesis / ValidateGenesis runs on the imported state ---------------- *)
+(* every statement of every module's types.GenesisState.Validate / types.ValidateGenesis was understood
+   by the translator (collections ranged over, item validators, maps built, lookups, rejecting
+   conditions): nothing is listed as unread *)
+Theorem c20_validation_recognised : validation_unread = [].
+Proof. exact validation_recognised. Qed.
+Print Assumptions c20_validation_recognised.
+
+(* every map access of every genesis validation is keyed rightly ([xref_ok]); in particular a record
+   of ANOTHER kind K is looked up through the field "<K>Id" of a record that is the item being
+   validated or was itself fetched by a checked lookup, in a map populated under each K's own Id:
+   a deposit request's pair is found through its pool's PairId, never through a pool id.  (liquidity
+   InitGenesis runs this validation and panics on its error: a lookup through the wrong id rejects
+   the module's own export as soon as pool ids and pair ids drift apart.) *)
+Theorem c20_validation_xrefs_keyed : forall x, In x val_xrefs ->
+  xref_ok val_xrefs x = true /\
+  (String.eqb (vx_kind x) "" = false -> (String.eqb (vx_owner x) (vx_kind x) && from_item x) = false ->
+   vx_keys x = [(vx_kind x ++ "Id")%string] /\ (from_item x || from_fetch val_xrefs x) = true /\
+   map_keyed_by_id val_xrefs (vx_mod x) (vx_map x) (vx_kind x) = true).
+Proof.
+  intros x Hin. pose proof (xrefs_keyed_row x Hin) as H. split; [exact H|].
+  intros Hk Hs. exact (xref_ok_reference _ _ H Hk Hs).
+Qed.
+Print Assumptions c20_validation_xrefs_keyed.
+
+(* closed world: every access is on a declared map of the stated kind, every DeFi module has an
+   AppModuleBasic.ValidateGenesis entry and no entry ignores the validation error, and every
+   collection the validation ranges over is a field ExportGenesis fills *)
+Theorem c20_validation_closed :
+  forallb (xref_declared val_maps) val_xrefs = true /\ entries_closed modules val_entries = true /\
+  forallb (coll_exported exports val_colls) val_colls = true.
+Proof. destruct validation_parts as [_ H]. exact H. Qed.
+Print Assumptions c20_validation_closed.
+
+(* non-vacuity and sensitivity: the table has the cross references of the liquidity validation (the
+   only module whose InitGenesis validates, and panics); the row the lookup `pairMap[req.PoolId]`
+   would produce is rejected, so is a map populated under another field *)
+Example c20_validation_sensitive :
+  validates_at_init val_entries = ["liquidity"%string] /\
+  (existsb (fun e => String.eqb (ve_mod e) "liquidity" && String.eqb (ve_entry e) "InitGenesis" &&
+                     String.eqb (ve_reaction e) "panic") val_entries) = true /\
+  (existsb (fun y => String.eqb (vx_coll y) "AppGenesisState.DepositRequests" && String.eqb (vx_map y) "pairMap" &&
+                     String.eqb (vx_owner y) "Pool" && String.eqb (vx_from y) "map:poolMap" &&
+                     match vx_keys y with [k] => String.eqb k "PairId" | _ => false end) val_xrefs) = true /\
+  (existsb (fun y => String.eqb (vx_coll y) "AppGenesisState.DepositRequests" && String.eqb (vx_map y) "poolMap" &&
+                     String.eqb (vx_owner y) "DepositRequest" && from_item y &&
+                     match vx_keys y with [k] => String.eqb k "PoolId" | _ => false end) val_xrefs) = true /\
+  (xref_ok val_xrefs (mkVX "liquidity" "AppGenesisState.DepositRequests" "pairMap" "Pair" "DepositRequest"
+                           "item:AppGenesisState.DepositRequests" ["PoolId"%string] "fetch")) = false /\
+  (xref_ok val_xrefs (mkVX "liquidity" "AppGenesisState.DepositRequests" "pairMap" "Pair" "Pool" "root"
+                           ["PairId"%string] "fetch")) = false /\
+  (let xs := map (fun y => if String.eqb (vx_how y) "populate" && String.eqb (vx_map y) "pairMap"
+                           then mkVX (vx_mod y) (vx_coll y) (vx_map y) (vx_kind y) (vx_owner y) (vx_from y)
+                                     ["CurrentBatchId"%string] (vx_how y) else y) val_xrefs in
+   xrefs_keyed xs = false) /\
+  (8 <= Z.of_nat (List.length (filter (fun x => negb (String.eqb (vx_kind x) "") &&
+                                                negb (String.eqb (vx_owner x) (vx_kind x))) val_xrefs))).
+Proof. vm_compute. repeat split; try reflexivity; intro; discriminate. Qed.
 
 (* ---------------- the known-finding classes: refutations on the unchanged tree ---------------- *)
 
